@@ -94,7 +94,7 @@ PROPS['C04'] = dict(
 )
 PROPS['C05'] = dict(
     title='macro expansion',
-    units=['arms', 'depth', 'split', 'rtmu', 'pphelp', 'derive', 'getstr'],
+    units=['arms', 'depth', 'split', 'rtmu', 'pphelp', 'derive', 'getstr', 'prologue'],
     shims=['A-glue', 'A-hashmap', 'A-str', 'A-arith', 'A-pplex'],
     design='DESIGN.md 3/C05',
     technique='contract-based deductive verification (Verus) of the verbatim TextMacroUsage arm and of the actual/formal binding block of resolve_text_macro_usage',
